@@ -71,9 +71,13 @@ def one_case(ctx, rng, nodes, edges, aliases, extra_kw, spacing):
     kw = dict(extra_kw)
     if spacing is not None:
         kw["spacing"] = spacing
+    given = None
     if aliases is not None:
-        kw["aliases"] = dict(aliases)
+        given = dict(aliases)          # the caller's own dict object: it must come back unchanged
+        kw["aliases"] = given
     st, rec = intercepted_draw(arch, **kw)
+    if given is not None and given != aliases:
+        ctx.violation(dict(nodes=nodes, edges=edges, aliases=aliases, after=str(given)[:300]), "visualize changed the caller's alias map", {"kind": "alias_map_mutated"})
     ctx.evaluations += 1
     mods = list(arch.modules)
     case = dict(nodes=nodes, edges=edges, aliases=aliases, spacing=spacing, extra=list(extra_kw))
@@ -107,6 +111,17 @@ def one_case(ctx, rng, nodes, edges, aliases, extra_kw, spacing):
                 break
         if any(label_oracle(aliases, m) != m for m in mods):
             ctx.mark_nontrivial((tuple(nodes), tuple(sorted(aliases.items()))))
+        # the same dict object used for a second drawing after one alias text was changed (and on a sub-architecture)
+        if given and rng.random() < 0.5:
+            k0 = sorted(given)[0]
+            given[k0] = given[k0] + "2"
+            expect2 = dict(aliases, **{k0: aliases[k0] + "2"})
+            st2, rec2 = intercepted_draw(arch, aliases=given)
+            ctx.evaluations += 1
+            lab2 = rec2["kwargs"].get("labels") if st2 == "OK" else None
+            if st2 != "OK" or lab2 != {m: label_oracle(expect2, m) for m in mods}:
+                ctx.violation(dict(case, second_call_aliases=expect2, result=str(rec2)[:300]),
+                              "a second drawing with the same alias dict (one alias changed) is not labelled as documented", {"kind": "labels_second_call"})
         return labels
     return {}
 
